@@ -63,6 +63,7 @@ def run_case(ctx, case):
         with w:
             scrolls0 = term.scrolls
             prev_sig = "fresh"
+            prev_obj = None
             for k, st in enumerate(case["steps"]):
                 if st["op"] == "resize":
                     rows, cols = st["rows"], st["cols"]
@@ -82,6 +83,19 @@ def run_case(ctx, case):
                         arr = fsarray(vals)
                     except Exception:
                         arr = vals
+                if st.get("inplace") and prev_obj is not None:
+                    # the application keeps ONE frame object, edits it in place and renders it again
+                    if isinstance(prev_obj, list) and isinstance(arr, list):
+                        prev_obj[:] = arr
+                        arr = prev_obj
+                    elif not isinstance(prev_obj, list) and not isinstance(arr, list) and \
+                            arr.width == prev_obj.width and len(arr) == len(prev_obj) and arr.width:
+                        prev_obj[0:len(arr), 0:arr.width] = [r.ljust(arr.width) if len(r) < arr.width else r
+                                                             for r in arr.rows]
+                        arr = prev_obj
+                        # what the frame object now holds (FSArray compositing itself is C04's subject)
+                        cells = [obs.cells(r) for r in arr.rows]
+                prev_obj = arr
                 cp = tuple(st["cursor"])
                 sig = ("C02", rows, cols, prev_sig, repr(st["array"]), cp, case["hide_cursor"])
                 mech = classify(cells, rows, cols)
@@ -156,8 +170,15 @@ def gen_history(rng, sizes, steps, start=None):
                 continue
             L = max(0, rng.choice([0, 1, cols - 1, cols, cols, cols + 1, cols + 4, rng.randint(0, cols + 1)]))
             arr.append(gen_row(rng, L))
-        case["steps"].append({"op": "render", "array": arr, "as": rng.choice(["list", "list", "fsarray"]),
-                              "cursor": [rng.randrange(rows), rng.randrange(cols)]})
+        step = {"op": "render", "array": arr, "as": rng.choice(["list", "list", "fsarray"]),
+                "cursor": [rng.randrange(rows), rng.randrange(cols)]}
+        last = next((s_ for s_ in reversed(case["steps"]) if s_["op"] == "render"), None)
+        if last is not None and case["steps"][-1]["op"] == "render" and rng.random() < .3:
+            step["inplace"] = True
+            step["as"] = last["as"]
+            if rng.random() < .7:
+                step["cursor"] = list(last["cursor"])
+        case["steps"].append(step)
         prev = arr
         last_rendered = (rows, cols)
     return case
